@@ -17,3 +17,768 @@ pub const SIZES: [u16; 255] = [
 	17018, 17489, 17973, 18470, 18981, 19506, 20046, 20600, 21170, 21756, 22358, 22976, 23612,
 	24265, 24936, 25626, 26335, 27064, 27812, 28582, 29372, 30185, 31020, 31878, 32760,
 ];
+
+use crate::{
+	interp::{Failure, Interp},
+	model::*,
+	spec::*,
+};
+use std::{
+	collections::{BTreeMap, BTreeSet, HashMap},
+	os::unix::{fs::FileExt, io::AsRawFd},
+	path::Path,
+};
+
+type LRes<T> = Result<T, Failure>;
+
+macro_rules! lfail {
+	($sig:expr, $($arg:tt)*) => {
+		return Err(Failure::new($sig, format!($($arg)*)))
+	};
+}
+
+pub const MULTIPART_ENTRY_SIZE: usize = 4096;
+
+pub fn entry_size(tier: u8) -> usize {
+	if tier == 255 {
+		MULTIPART_ENTRY_SIZE
+	} else {
+		SIZES[tier as usize] as usize
+	}
+}
+
+/// Same key hashing as the database (re-implemented with the same primitives).
+pub fn hash_key(key: &[u8], salt: &[u8; 32], uniform: bool) -> [u8; 32] {
+	let mut k = [0u8; 32];
+	if uniform {
+		if salt == &[0u8; 32] {
+			k.copy_from_slice(&key[..32]);
+			return k
+		}
+		use siphasher::sip128::Hasher128;
+		use std::hash::Hasher;
+		let mut hasher = siphasher::sip128::SipHasher13::new_with_key(salt[..16].try_into().unwrap());
+		hasher.write(key);
+		let hash = hasher.finish128();
+		k[0..8].copy_from_slice(&hash.h1.to_le_bytes());
+		k[8..16].copy_from_slice(&hash.h2.to_le_bytes());
+		k[16..].copy_from_slice(&key[16..32]);
+	} else {
+		use blake2::{
+			digest::{typenum::U32, FixedOutput, Update},
+			Blake2bMac,
+		};
+		let mut ctx = Blake2bMac::<U32>::new_with_salt_and_personal(salt, &[], &[]).unwrap();
+		ctx.update(key);
+		k.copy_from_slice(&ctx.finalize_fixed());
+	}
+	k
+}
+
+#[derive(Clone, Debug, PartialEq, Eq)]
+pub enum SlotKind {
+	Tombstone(u64),
+	/// single entry or last part of a chain
+	Sized,
+	MultiHead(u64, bool),
+	MultiPart(u64),
+}
+
+pub struct TableImg {
+	pub tier: u8,
+	pub entry_size: usize,
+	pub data: Vec<u8>,
+	pub file_len: u64,
+	pub filled: u64,
+	pub last_removed: u64,
+	pub free_list: Vec<u64>,
+	/// slot -> number of times it was claimed by a live chain
+	pub used: HashMap<u64, u32>,
+}
+
+impl TableImg {
+	pub fn slot(&self, i: u64) -> Option<&[u8]> {
+		let s = i as usize * self.entry_size;
+		self.data.get(s..s + self.entry_size)
+	}
+	pub fn kind(&self, i: u64) -> Option<SlotKind> {
+		let b = self.slot(i)?;
+		let next = || u64::from_le_bytes(b[2..10].try_into().unwrap());
+		Some(match (b[0], b[1]) {
+			(0xff, 0xff) => SlotKind::Tombstone(next()),
+			(0xfd, 0xff) if self.tier == 255 => SlotKind::MultiHead(next(), false),
+			(0xfd, 0x7f) if self.tier == 255 => SlotKind::MultiHead(next(), true),
+			(0xfe, 0xff) if self.tier == 255 => SlotKind::MultiPart(next()),
+			_ => SlotKind::Sized,
+		})
+	}
+}
+
+pub struct Decoded {
+	pub rc: u32,
+	pub key_tail: Option<[u8; 26]>,
+	pub value: Vec<u8>,
+	pub compressed: bool,
+	pub slots: Vec<u64>,
+}
+
+pub struct ColImg {
+	pub tables: BTreeMap<u8, TableImg>,
+	/// (index bits, non-empty entries as (chunk, slot-in-chunk, raw entry))
+	pub indexes: Vec<(u8, Vec<(u64, usize, u64)>)>,
+	/// address -> count
+	pub refcounts: Vec<(u8, HashMap<u64, u64>)>,
+}
+
+fn read_sparse_nonzero_u64(path: &Path, skip: u64, mut f: impl FnMut(u64, u64)) -> std::io::Result<u64> {
+	let file = std::fs::File::open(path)?;
+	let len = file.metadata()?.len();
+	let fd = file.as_raw_fd();
+	let mut off: i64 = skip as i64;
+	let mut buf = vec![0u8; 1 << 16];
+	while (off as u64) < len {
+		let data = unsafe { libc::lseek(fd, off, libc::SEEK_DATA) };
+		if data < 0 {
+			break
+		}
+		let data = (data as u64).max(skip) & !7;
+		let mut hole = unsafe { libc::lseek(fd, data as i64, libc::SEEK_HOLE) };
+		if hole < 0 {
+			hole = len as i64;
+		}
+		let mut p = data;
+		while p < hole as u64 {
+			let n = ((hole as u64 - p) as usize).min(buf.len());
+			let r = file.read_at(&mut buf[..n], p)?;
+			if r == 0 {
+				break
+			}
+			for (i, c) in buf[..r - r % 8].chunks_exact(8).enumerate() {
+				let v = u64::from_le_bytes(c.try_into().unwrap());
+				if v != 0 {
+					f(p + i as u64 * 8, v);
+				}
+			}
+			p += r as u64;
+		}
+		off = hole;
+	}
+	Ok(len)
+}
+
+pub fn load_col(dir: &Path, col: u8) -> LRes<ColImg> {
+	let mut tables = BTreeMap::new();
+	let mut indexes = Vec::new();
+	let mut refcounts = Vec::new();
+	let rd = std::fs::read_dir(dir).map_err(|e| Failure::new("harness-io", e.to_string()))?;
+	for e in rd.flatten() {
+		let name = e.file_name().to_string_lossy().to_string();
+		if let Some(rest) = name.strip_prefix(&format!("table_{col:02}_")) {
+			let tier = u8::from_str_radix(rest, 16).map_err(|_| Failure::new("layout-bad-file-name", name.clone()))?;
+			let data = std::fs::read(e.path()).map_err(|e| Failure::new("harness-io", e.to_string()))?;
+			let es = entry_size(tier);
+			let (mut last_removed, mut filled) = (0, 1);
+			if data.len() >= 16 {
+				last_removed = u64::from_le_bytes(data[0..8].try_into().unwrap());
+				filled = u64::from_le_bytes(data[8..16].try_into().unwrap());
+				if filled == 0 {
+					filled = 1;
+				}
+			}
+			tables.insert(tier, TableImg { tier, entry_size: es, file_len: data.len() as u64, data, filled, last_removed, free_list: vec![], used: HashMap::new() });
+		} else if let Some(rest) = name.strip_prefix(&format!("index_{col:02}_")) {
+			let bits: u8 = rest.parse().map_err(|_| Failure::new("layout-bad-file-name", name.clone()))?;
+			let mut entries = Vec::new();
+			let len = read_sparse_nonzero_u64(&e.path(), 16 * 1024, |off, v| {
+				let idx = (off - 16 * 1024) / 8;
+				entries.push((idx / 64, (idx % 64) as usize, v));
+			})
+			.map_err(|e| Failure::new("harness-io", e.to_string()))?;
+			let want = (1u64 << bits) * 512 + 16 * 1024;
+			if len != want {
+				lfail!("layout-index-size", "{name}: length {len}, expected {want}")
+			}
+			indexes.push((bits, entries));
+		} else if let Some(rest) = name.strip_prefix(&format!("refcount_{col:02}_")) {
+			let bits: u8 = rest.parse().map_err(|_| Failure::new("layout-bad-file-name", name.clone()))?;
+			let mut raw: BTreeMap<u64, u64> = BTreeMap::new();
+			read_sparse_nonzero_u64(&e.path(), 0, |off, v| {
+				raw.insert(off / 8, v);
+			})
+			.map_err(|e| Failure::new("harness-io", e.to_string()))?;
+			let mut m = HashMap::new();
+			for (word, v) in raw.iter() {
+				if word % 2 == 0 {
+					let count = raw.get(&(word + 1)).cloned().unwrap_or(0);
+					m.insert(*v, count);
+				}
+			}
+			refcounts.push((bits, m));
+		}
+	}
+	indexes.sort_by_key(|(b, _)| *b);
+	Ok(ColImg { tables, indexes, refcounts })
+}
+
+fn decompress(kind: u8, data: &[u8]) -> LRes<Vec<u8>> {
+	match kind {
+		1 => lz4::block::decompress(data, None).map_err(|e| Failure::new("layout-decompress", format!("lz4: {e}"))),
+		2 => {
+			use std::io::Read;
+			let mut out = Vec::new();
+			snap::read::FrameDecoder::new(data).read_to_end(&mut out).map_err(|e| Failure::new("layout-decompress", format!("snappy: {e}")))?;
+			Ok(out)
+		},
+		_ => lfail!("layout-compressed-flag-on-uncompressed-column", "entry flagged compressed in a column without compression"),
+	}
+}
+
+impl ColImg {
+	/// Walks the free lists of every table.
+	pub fn walk_free_lists(&mut self, col: u8) -> LRes<()> {
+		for (tier, t) in self.tables.iter_mut() {
+			if t.last_removed >= t.filled {
+				lfail!("layout-free-list-out-of-range", "col {col} tier {tier:02x}: last_removed {} >= filled {}", t.last_removed, t.filled)
+			}
+			if t.filled as usize * t.entry_size > t.data.len() {
+				lfail!("layout-filled-beyond-file", "col {col} tier {tier:02x}: filled {} but file holds {} entries", t.filled, t.data.len() / t.entry_size)
+			}
+			let mut seen = BTreeSet::new();
+			let mut next = t.last_removed;
+			let mut list = Vec::new();
+			while next != 0 {
+				if next >= t.filled {
+					lfail!("layout-free-list-out-of-range", "col {col} tier {tier:02x}: free list reaches {next} >= filled {}", t.filled)
+				}
+				if !seen.insert(next) {
+					lfail!("layout-free-list-cycle", "col {col} tier {tier:02x}: free list revisits slot {next}")
+				}
+				match t.kind(next) {
+					Some(SlotKind::Tombstone(n)) => {
+						list.push(next);
+						next = n;
+					},
+					k => lfail!("layout-free-list-not-tombstone", "col {col} tier {tier:02x}: free list contains slot {next} which is {:?}", k),
+				}
+			}
+			t.free_list = list;
+		}
+		Ok(())
+	}
+
+	/// Decodes the value chain starting at `addr`, claiming its slots.
+	pub fn decode(&mut self, col: u8, ccfg: &ColCfg, addr: u64, keyed: bool) -> LRes<Decoded> {
+		let tier = (addr & 0xff) as u8;
+		let offset = addr >> 8;
+		let has_rc = ccfg.rc;
+		let t = match self.tables.get_mut(&tier) {
+			Some(t) => t,
+			None => lfail!("layout-address-no-table", "col {col}: address {addr:#x} points into tier {tier:02x} which has no file"),
+		};
+		if offset == 0 || offset >= t.filled {
+			lfail!("layout-address-out-of-range", "col {col}: address {addr:#x}: slot {offset} outside 1..{}", t.filled)
+		}
+		let mut slots = Vec::new();
+		let mut value = Vec::new();
+		let mut rc = 1u32;
+		let mut key_tail = None;
+		let mut compressed = false;
+		let mut idx = offset;
+		let mut part = 0;
+		loop {
+			if idx == 0 || idx >= t.filled {
+				lfail!("layout-chain-out-of-range", "col {col} tier {tier:02x}: chain from {offset} reaches slot {idx} outside 1..{}", t.filled)
+			}
+			if slots.contains(&idx) {
+				lfail!("layout-chain-cycle", "col {col} tier {tier:02x}: chain from {offset} revisits {idx}")
+			}
+			slots.push(idx);
+			let kind = t.kind(idx).unwrap();
+			let b = t.slot(idx).unwrap();
+			let mut pos;
+			let end;
+			let next;
+			match (&kind, part) {
+				(SlotKind::Tombstone(_), _) => lfail!("layout-chain-hits-tombstone", "col {col} tier {tier:02x}: chain from {offset} contains freed slot {idx} (part {part})"),
+				(SlotKind::MultiHead(n, c), 0) => {
+					compressed = *c;
+					pos = 10;
+					end = t.entry_size;
+					next = *n;
+				},
+				(SlotKind::MultiHead(..), _) => lfail!("layout-chain-head-in-middle", "col {col}: chain from {offset} has a head marker at part {part} (slot {idx})"),
+				(SlotKind::MultiPart(_), 0) => lfail!("layout-chain-starts-with-continuation", "col {col} tier {tier:02x}: slot {offset} is a continuation part, not a value head"),
+				(SlotKind::MultiPart(n), _) => {
+					pos = 10;
+					end = t.entry_size;
+					next = *n;
+				},
+				(SlotKind::Sized, _) => {
+					if tier == 255 && part == 0 {
+						lfail!("layout-multipart-table-single", "col {col}: slot {offset} of the multipart table starts with a sized entry")
+					}
+					let raw = u16::from_le_bytes([b[0], b[1]]);
+					let size = (raw & 0x7fff) as usize;
+					if part == 0 {
+						compressed = raw & 0x8000 != 0;
+					}
+					pos = 2;
+					end = 2 + size;
+					next = 0;
+					if end > t.entry_size {
+						lfail!("layout-entry-size-too-large", "col {col} tier {tier:02x} slot {idx}: size {size} exceeds entry size {}", t.entry_size)
+					}
+				},
+			}
+			if part == 0 {
+				if has_rc {
+					if pos + 4 > end {
+						lfail!("layout-entry-too-small", "col {col} tier {tier:02x} slot {idx}: no room for ref count")
+					}
+					rc = u32::from_le_bytes(b[pos..pos + 4].try_into().unwrap());
+					pos += 4;
+				}
+				if keyed {
+					if pos + 26 > end {
+						lfail!("layout-entry-too-small", "col {col} tier {tier:02x} slot {idx}: no room for key")
+					}
+					let mut k = [0u8; 26];
+					k.copy_from_slice(&b[pos..pos + 26]);
+					key_tail = Some(k);
+					pos += 26;
+				}
+			}
+			value.extend_from_slice(&b[pos..end]);
+			if next == 0 {
+				break
+			}
+			idx = next;
+			part += 1;
+		}
+		for s in &slots {
+			*t.used.entry(*s).or_insert(0) += 1;
+		}
+		if compressed {
+			value = decompress(ccfg.compression, &value)?;
+		}
+		Ok(Decoded { rc, key_tail, value, compressed, slots })
+	}
+}
+
+#[derive(Default, Debug, Clone)]
+pub struct LayoutReport {
+	pub btree_max_depth: u32,
+	pub live_slots: u64,
+	pub free_slots: u64,
+	pub leftovers: u64,
+	pub compressed_values: u64,
+	pub multipart_values: u64,
+	pub index_files: usize,
+	pub max_index_bits: u8,
+	/// (col, tier) -> (filled, file length)
+	pub tables: BTreeMap<(u8, u8), (u64, u64)>,
+	pub shared_nodes: u64,
+}
+
+/// Checks every structural invariant of C14 on a closed database directory; when an
+/// interpreter is given the content is also compared with its model.
+pub fn check_dir(cfg: &DbCfg, dir: &Path, it: Option<&Interp>) -> LRes<LayoutReport> {
+	let mut rep = LayoutReport::default();
+	let salt = if cfg.zero_salt { [0u8; 32] } else { FIXED_SALT };
+	for (c, ccfg) in cfg.cols.iter().enumerate() {
+		let col = c as u8;
+		let mut img = load_col(dir, col)?;
+		img.walk_free_lists(col)?;
+		let model = it.map(|i| &i.model.cols[c]);
+		match ccfg.kind {
+			Kind::Btree => check_btree(col, ccfg, &mut img, model, &mut rep)?,
+			Kind::Hash | Kind::Multi => check_hash(col, ccfg, &salt, &mut img, model, it, &mut rep)?,
+		}
+		// slot accounting
+		for (tier, t) in img.tables.iter() {
+			rep.tables.insert((col, *tier), (t.filled, t.file_len));
+			let free: BTreeSet<u64> = t.free_list.iter().cloned().collect();
+			for s in 1..t.filled {
+				let used = t.used.get(&s).cloned().unwrap_or(0);
+				let is_tomb = matches!(t.kind(s), Some(SlotKind::Tombstone(_)));
+				// the btree header lives in slot 1 of tier 0
+				let is_header = ccfg.kind == Kind::Btree && *tier == 0 && s == 1;
+				if is_header {
+					continue
+				}
+				if used > 1 {
+					lfail!("layout-slot-used-twice", "col {col} tier {tier:02x} slot {s}: part of {used} live value chains")
+				}
+				if used == 1 && free.contains(&s) {
+					lfail!("layout-slot-live-and-free", "col {col} tier {tier:02x} slot {s}: on the free list and part of a live chain")
+				}
+				if used == 0 && !free.contains(&s) {
+					if is_tomb {
+						lfail!("layout-tombstone-not-on-free-list", "col {col} tier {tier:02x} slot {s}: freed but not reachable from the free list (leaked)")
+					} else {
+						lfail!("layout-orphan-slot", "col {col} tier {tier:02x} slot {s}: live data that nothing references (leaked)")
+					}
+				}
+				if used == 1 {
+					rep.live_slots += 1;
+				}
+			}
+			rep.free_slots += t.free_list.len() as u64;
+		}
+	}
+	Ok(rep)
+}
+
+fn check_btree(col: u8, ccfg: &ColCfg, img: &mut ColImg, model: Option<&ColModel>, rep: &mut LayoutReport) -> LRes<()> {
+	// header: tier 0 slot 1: [size:2][root:8][depth:4]
+	let (root, depth) = match img.tables.get(&0) {
+		None => (0u64, 0u32),
+		Some(t) => match t.slot(1) {
+			None => (0, 0),
+			Some(b) => {
+				let size = u16::from_le_bytes([b[0], b[1]]) & 0x7fff;
+				if size == 0 && t.filled <= 1 {
+					(0, 0)
+				} else if size != 12 {
+					lfail!("layout-btree-header", "col {col}: header entry has size {size}, expected 12")
+				} else {
+					(u64::from_le_bytes(b[2..10].try_into().unwrap()), u32::from_le_bytes(b[10..14].try_into().unwrap()))
+				}
+			},
+		},
+	};
+	let mut pairs: Vec<(Vec<u8>, Vec<u8>, u32)> = Vec::new();
+	let node_cfg = ColCfg { rc: ccfg.rc, compression: 0, ..ccfg.clone() };
+	// nodes are stored uncompressed? they go through the same value path: honour the flag
+	fn walk(
+		col: u8,
+		ccfg: &ColCfg,
+		node_cfg: &ColCfg,
+		img: &mut ColImg,
+		addr: u64,
+		level: u32,
+		depth: u32,
+		pairs: &mut Vec<(Vec<u8>, Vec<u8>, u32)>,
+		rep: &mut LayoutReport,
+	) -> LRes<()> {
+		if level > 64 {
+			lfail!("layout-btree-too-deep", "col {col}: node chain deeper than 64")
+		}
+		let _ = node_cfg;
+		let d = img.decode(col, ccfg, addr, false)?;
+		let b = d.value;
+		let mut pos = 0usize;
+		let mut n_children = 0;
+		let mut n_seps = 0;
+		let mut any_child = false;
+		loop {
+			if pos + 8 > b.len() {
+				lfail!("layout-btree-node-truncated", "col {col}: node at {addr:#x} truncated at child {n_children}")
+			}
+			let child = u64::from_le_bytes(b[pos..pos + 8].try_into().unwrap());
+			pos += 8;
+			if child != 0 {
+				any_child = true;
+				if level + 1 > depth {
+					lfail!("layout-btree-depth", "col {col}: node at {addr:#x} (level {level}) has a child although the header records depth {depth}")
+				}
+				walk(col, ccfg, node_cfg, img, child, level + 1, depth, pairs, rep)?;
+			} else if level < depth && (n_seps > 0 || pos < b.len()) {
+				// an internal node must have a child on every side of a separator
+				if any_child || level < depth {
+					lfail!("layout-btree-missing-child", "col {col}: internal node at {addr:#x} (level {level} of depth {depth}) lacks child {n_children}")
+				}
+			}
+			n_children += 1;
+			if n_children == 9 || pos == b.len() {
+				break
+			}
+			if pos + 9 > b.len() {
+				lfail!("layout-btree-node-truncated", "col {col}: node at {addr:#x} truncated at separator {n_seps}")
+			}
+			let vaddr = u64::from_le_bytes(b[pos..pos + 8].try_into().unwrap());
+			let head = b[pos + 8];
+			pos += 9;
+			let klen = if head == 255 {
+				if pos + 4 > b.len() {
+					lfail!("layout-btree-node-truncated", "col {col}: node at {addr:#x} truncated in key length")
+				}
+				let l = u32::from_le_bytes(b[pos..pos + 4].try_into().unwrap()) as usize;
+				pos += 4;
+				l
+			} else {
+				head as usize
+			};
+			if pos + klen > b.len() {
+				lfail!("layout-btree-node-truncated", "col {col}: node at {addr:#x} truncated in key")
+			}
+			let key = b[pos..pos + klen].to_vec();
+			pos += klen;
+			if vaddr == 0 {
+				break
+			}
+			let v = img.decode(col, ccfg, vaddr, false)?;
+			if v.compressed {
+				rep.compressed_values += 1;
+			}
+			if v.slots.len() > 1 {
+				rep.multipart_values += 1;
+			}
+			pairs.push((key, v.value, v.rc));
+			n_seps += 1;
+		}
+		if level == depth && any_child {
+			lfail!("layout-btree-depth", "col {col}: leaf level node at {addr:#x} has children")
+		}
+		Ok(())
+	}
+	if root != 0 {
+		walk(col, ccfg, &node_cfg, img, root, 0, depth, &mut pairs, rep)?;
+		rep.btree_max_depth = rep.btree_max_depth.max(depth + 1);
+	}
+	// in-order = node order? The walk above appends separators after visiting the child to
+	// their left, i.e. in-order, as long as children and separators alternate.
+	for w in pairs.windows(2) {
+		if w[0].0 >= w[1].0 {
+			lfail!("layout-btree-unsorted", "col {col}: on-disk tree keys not strictly ascending: {:?} then {:?}", crate::interp::brief(Some(&w[0].0)), crate::interp::brief(Some(&w[1].0)))
+		}
+	}
+	if let Some(model) = model {
+		let want: Vec<(Vec<u8>, Vec<u8>, u32)> = match model {
+			ColModel::Map(m) => {
+				let mut v: Vec<_> = m.iter().map(|(id, v)| (ccfg.key(*id), v.clone(), 1u32)).collect();
+				v.sort();
+				v
+			},
+			ColModel::Rc(m) => {
+				let mut v: Vec<_> = m.iter().map(|(id, c)| (ccfg.key(*id), ccfg.pre_value(*id), *c as u32)).collect();
+				v.sort();
+				v
+			},
+			_ => vec![],
+		};
+		if pairs.len() != want.len() || pairs.iter().zip(want.iter()).any(|(a, b)| a.0 != b.0 || a.1 != b.1 || (ccfg.rc && a.2 != b.2)) {
+			let first = pairs.iter().zip(want.iter()).position(|(a, b)| a != b);
+			lfail!("layout-btree-content", "col {col}: on-disk tree holds {} entries, model {}; first difference at {:?}", pairs.len(), want.len(), first)
+		}
+	}
+	Ok(())
+}
+
+fn check_hash(
+	col: u8,
+	ccfg: &ColCfg,
+	salt: &[u8; 32],
+	img: &mut ColImg,
+	model: Option<&ColModel>,
+	it: Option<&Interp>,
+	rep: &mut LayoutReport,
+) -> LRes<()> {
+	rep.index_files = rep.index_files.max(img.indexes.len());
+	if img.indexes.len() > 1 {
+		lfail!("layout-two-index-files", "col {col}: {} index files remain on a quiescent database", img.indexes.len())
+	}
+	// model: hashed key -> (key id, expected value, expected rc)
+	let mut want: HashMap<[u8; 32], (u16, Option<Vec<u8>>, u64)> = HashMap::new();
+	if let Some(m) = model {
+		match m {
+			ColModel::Map(m) =>
+				for (id, v) in m {
+					want.insert(hash_key(&ccfg.key(*id), salt, ccfg.uniform), (*id, Some(v.clone()), 1));
+				},
+			ColModel::Rc(m) =>
+				for (id, c) in m {
+					want.insert(hash_key(&ccfg.key(*id), salt, ccfg.uniform), (*id, Some(ccfg.pre_value(*id)), *c));
+				},
+			ColModel::Multi(mm) =>
+				for (id, (c, _, _)) in &mm.roots {
+					want.insert(hash_key(&ccfg.key(*id), salt, ccfg.uniform), (*id, None, *c));
+				},
+		}
+	}
+	let mut found: HashMap<u16, u32> = HashMap::new();
+	let mut root_children: Vec<(u16, Vec<u8>, Vec<u64>)> = Vec::new();
+	let indexes = std::mem::take(&mut img.indexes);
+	for (bits, entries) in indexes.iter() {
+		rep.max_index_bits = rep.max_index_bits.max(*bits);
+		let address_bits = *bits as u32 + 6 + 8;
+		for (chunk, _slot, raw) in entries {
+			let addr = raw & ((1u64 << address_bits) - 1);
+			let partial = raw >> address_bits;
+			// first 50 bits of the hashed key
+			let prefix = (chunk << (64 - *bits as u32)) | (partial << (64 - 50));
+			// leftovers (stale entries) are tolerated only after index growth
+			let tolerate = *bits > 16;
+			let tier = (addr & 0xff) as u8;
+			let offset = addr >> 8;
+			let live_head = match img.tables.get(&tier) {
+				Some(t) if offset >= 1 && offset < t.filled =>
+					matches!(t.kind(offset), Some(SlotKind::Sized) | Some(SlotKind::MultiHead(..))) && !(tier == 255 && matches!(t.kind(offset), Some(SlotKind::Sized))),
+				_ => false,
+			};
+			if !live_head {
+				if tolerate {
+					rep.leftovers += 1;
+					continue
+				}
+				lfail!("layout-index-entry-dangling", "col {col}: index entry (chunk {chunk}) -> address {addr:#x} which is not a live value head (index never grew, so no leftovers are possible)")
+			}
+			// peek at the key tail without claiming
+			let probe = {
+				let t = img.tables.get(&tier).unwrap();
+				let b = t.slot(offset).unwrap();
+				let mut pos = if matches!(t.kind(offset), Some(SlotKind::MultiHead(..))) { 10 } else { 2 };
+				if ccfg.rc {
+					pos += 4;
+				}
+				let mut k = [0u8; 26];
+				if pos + 26 <= b.len() {
+					k.copy_from_slice(&b[pos..pos + 26]);
+				}
+				k
+			};
+			let mut full = [0u8; 32];
+			full[0..8].copy_from_slice(&prefix.to_be_bytes());
+			let top2_index = full[6] & 0xc0;
+			full[6..32].copy_from_slice(&probe);
+			let consistent = (probe[0] & 0xc0) == top2_index;
+			let known = want.get(&full);
+			if !consistent || (model.is_some() && known.is_none()) {
+				// the slot holds the value of another key (or a key the model does not have)
+				if tolerate {
+					rep.leftovers += 1;
+					continue
+				}
+				if !consistent {
+					lfail!("layout-index-entry-wrong-key", "col {col}: index entry (chunk {chunk}) -> address {addr:#x} whose stored key does not match the entry's key bits")
+				}
+				lfail!("layout-index-entry-unknown-key", "col {col}: index entry (chunk {chunk}) -> address {addr:#x} holds a key that is not live in the model")
+			}
+			let d = img.decode(col, ccfg, addr, true)?;
+			if d.compressed {
+				rep.compressed_values += 1;
+			}
+			if d.slots.len() > 1 {
+				rep.multipart_values += 1;
+			}
+			if let Some((id, val, count)) = known {
+				*found.entry(*id).or_insert(0) += 1;
+				match val {
+					Some(v) =>
+						if &d.value != v {
+							lfail!("layout-value-mismatch", "col {col} key id {id}: stored value {} differs from model {}", crate::interp::brief(Some(&d.value)), crate::interp::brief(Some(v)))
+						},
+					None => {
+						// multitree root: unpack children
+						let (data, children) = unpack_node(&d.value).ok_or_else(|| Failure::new("layout-root-unpack", format!("col {col} root {id}: cannot unpack node")))?;
+						root_children.push((*id, data, children));
+					},
+				}
+				if ccfg.rc && d.rc as u64 != *count {
+					lfail!("layout-rc-mismatch", "col {col} key id {id}: stored count {} model {}", d.rc, count)
+				}
+			} else if ccfg.kind == Kind::Multi {
+				if let Some((data, children)) = unpack_node(&d.value) {
+					root_children.push((u16::MAX, data, children));
+				}
+			}
+		}
+	}
+	img.indexes = indexes;
+	if model.is_some() {
+		for (_h, (id, _, _)) in want.iter() {
+			match found.get(id).cloned().unwrap_or(0) {
+				1 => {},
+				0 => lfail!("layout-key-not-in-index", "col {col} key id {id}: live in the model but no valid index entry resolves to it"),
+				n => lfail!("layout-key-duplicated", "col {col} key id {id}: {n} valid index entries"),
+			}
+		}
+	}
+	if ccfg.kind == Kind::Multi {
+		// decode the forest: node address -> number of referencing parents
+		let mut parents: HashMap<u64, u64> = HashMap::new();
+		let mut decoded: HashMap<u64, (Vec<u8>, Vec<u64>)> = HashMap::new();
+		let mut stack: Vec<u64> = Vec::new();
+		for (_, _, ch) in &root_children {
+			for a in ch {
+				*parents.entry(*a).or_insert(0) += 1;
+				stack.push(*a);
+			}
+		}
+		while let Some(a) = stack.pop() {
+			if decoded.contains_key(&a) {
+				continue
+			}
+			let d = img.decode(col, ccfg, a, false)?;
+			let (data, children) = unpack_node(&d.value).ok_or_else(|| Failure::new("layout-node-unpack", format!("col {col}: cannot unpack node at {a:#x}")))?;
+			for c in &children {
+				*parents.entry(*c).or_insert(0) += 1;
+				stack.push(*c);
+			}
+			decoded.insert(a, (data, children));
+		}
+		if !ccfg.append_only {
+			let mut counts: HashMap<u64, u64> = HashMap::new();
+			for (_, m) in &img.refcounts {
+				for (a, c) in m {
+					counts.insert(*a, *c);
+				}
+			}
+			for (a, p) in &parents {
+				let stored = counts.get(a).cloned().unwrap_or(1);
+				if stored != *p {
+					lfail!("layout-node-refcount", "col {col}: node {a:#x} has {p} referencing parents but stored reference count {stored}")
+				}
+				if *p > 1 {
+					rep.shared_nodes += 1;
+				}
+			}
+			for (a, c) in &counts {
+				if !parents.contains_key(a) {
+					lfail!("layout-refcount-entry-for-dead-node", "col {col}: reference count table holds {c} for {a:#x} which no live tree references")
+				}
+			}
+		}
+		// compare with the model forest
+		if let (Some(ColModel::Multi(mm)), Some(it)) = (model, it) {
+			for (id, data, children) in &root_children {
+				if let Some((_, mdata, mch)) = mm.roots.get(id) {
+					if data != mdata || children.len() != mch.len() {
+						lfail!("layout-root-content", "col {col} root {id}: stored root differs from the model")
+					}
+					let mut st: Vec<(NodeId, u64)> = mch.iter().cloned().zip(children.iter().cloned()).collect();
+					let mut seen = BTreeSet::new();
+					while let Some((n, a)) = st.pop() {
+						if !seen.insert((n, a)) {
+							continue
+						}
+						if let Some(known) = it.addr.get(&(col, n)) {
+							if *known != a {
+								lfail!("layout-node-address", "col {col}: model node {n} expected at {known:#x}, tree references {a:#x}")
+							}
+						}
+						let (d, ch) = &decoded[&a];
+						let mn = &mm.nodes[n];
+						if d != &mn.data || ch.len() != mn.children.len() {
+							lfail!("layout-node-content", "col {col}: node {a:#x} differs from model node {n}")
+						}
+						for (cn, ca) in mn.children.iter().zip(ch.iter()) {
+							st.push((*cn, *ca));
+						}
+					}
+				}
+			}
+		}
+	}
+	Ok(())
+}
+
+pub fn unpack_node(v: &[u8]) -> Option<(Vec<u8>, Vec<u64>)> {
+	let n = *v.last()? as usize;
+	if v.len() < n * 8 + 1 {
+		return None
+	}
+	let dl = v.len() - n * 8 - 1;
+	let children = (0..n).map(|i| u64::from_le_bytes(v[dl + i * 8..dl + i * 8 + 8].try_into().unwrap())).collect();
+	Some((v[..dl].to_vec(), children))
+}
